@@ -109,6 +109,19 @@ mut("transcript-signature-drops-sigma2", PS, "        builder.consume(&self.sigm
 mut("transcript-range-params-drop-key", RNG, "        builder.consume(&self.public_key);\n", "", ["c12", "c13"])
 mut("transcript-pedersen-drops-h", PED, "        builder.consume_bytes(self.h.to_bytes());\n", "", ["c12"])
 
+# ---- behaviour-preserving refactors: every listed check must stay OK (a VIOLATION or INCONCLUSIVE here is a false alarm)
+mut("refactor-est-early-returns", PRO, "        // Only return Verified outputs if everything passed.\n        match (\n            state_proof_verifies,\n            close_state_proof_verifies,\n            channel_ids_match",
+    "        if !revlocks_match {\n            return None;\n        }\n        if !(merchant_balances_match && customer_balances_match) {\n            return None;\n        }\n        // Only return Verified outputs if everything passed.\n        match (\n            state_proof_verifies,\n            close_state_proof_verifies,\n            channel_ids_match", ["c01", "c06", "c12", "c04"])
+mut("refactor-pay-reordered-conjuncts", PRO, "            old_pay_token_proof_verifies\n                && old_revlock_proof_verifies\n                && customer_balance_proof_verifies\n                && merchant_balance_proof_verifies",
+    "            merchant_balance_proof_verifies\n                && customer_balance_proof_verifies\n                && old_revlock_proof_verifies\n                && old_pay_token_proof_verifies", ["c02", "c06", "c04"])
+mut("refactor-pay-amount-hoisted", PRO, "        let customer_balance_properly_updated = state_response_scalars[3]\n            == old_pay_token_response_scalars[3]\n                - challenge.to_scalar() * public_values.amount.to_scalar();",
+    "        let scaled_amount = public_values.amount.to_scalar() * challenge.to_scalar();\n        let customer_balance_properly_updated =\n            state_response_scalars[3] + scaled_amount == old_pay_token_response_scalars[3];", ["c02", "c04"])
+mut("refactor-ps-verify-negate-sigma", PS, "            (&self.sigma1, &intermediate.to_affine().into()),\n            (&self.sigma2, &public_key.g2.neg().into()),", "            (&self.sigma1.neg(), &intermediate.to_affine().into()),\n            (&self.sigma2, &public_key.g2.into()),", ["c07", "c03", "c08"])
+mut("refactor-range-verify-fold", RNG, "        valid_digits && response_scalar == expected_response_scalar", "        if !valid_digits {\n            return false;\n        }\n        expected_response_scalar - response_scalar == Scalar::zero()", ["c13", "c02", "c10"])
+mut("refactor-complete-if-let", CUS, "        match close_state_signature.verify(config, &self.state.close_state()) {\n            // If so, save it and enter the `Inactive` state.\n            Verified => Ok(Inactive {", "        match close_state_signature.verify(config, &self.state.close_state()) {\n            Failed => Err(self),\n            Verified => Ok(Inactive {", ["c03", "c04", "c20"])
+mut("refactor-verify-opening-sub", PED, "        msg.commit(pedersen_params, bf) == *self\n", "        bool::from((msg.commit(pedersen_params, bf).0 - self.0).is_identity())\n", ["c09", "c05", "c11"])
+mut("refactor-nonce-new-do-while", NON, "        loop {\n            if let Ok(n) = Nonce::try_from(UncheckedNonce(Scalar::random(&mut *rng))) {\n                return n;\n            }\n        }", "        let mut s = Scalar::random(&mut *rng);\n        while s == CLOSE_SCALAR {\n            s = Scalar::random(&mut *rng);\n        }\n        Self(s)", ["c18", "c14", "c20"])
+
 
 def sh(cmd, cwd=None, timeout=3600):
     p = subprocess.run(cmd, shell=True, cwd=cwd, stdout=subprocess.PIPE, stderr=subprocess.STDOUT, timeout=timeout, env=ENV)
@@ -206,7 +219,8 @@ def main():
         f.write("| mutant | file | test suite | checks |\n|---|---|---|---|\n")
         for k in sorted(results):
             r = results[k]
-            f.write(f"| `{k}` | {r['file']} | {r['status']} | " + ", ".join(f"{p.upper()}: {v['verdict']}" for p, v in r["props"].items()) + " |\n")
+            lab = lambda v: "OK (no alarm)" if k.startswith("refactor-") and v.startswith("OK") else v
+            f.write(f"| `{k}` | {r['file']} | {r['status'][:60]} | " + ", ".join(f"{p.upper()}: {lab(v['verdict'])}" for p, v in r["props"].items()) + " |\n")
     shutil.rmtree(AM, ignore_errors=True)
 
 
